@@ -7,7 +7,7 @@ open StoreM
 
 def idxKey (c f : Bytes) (v : Value) (id : Bytes) : Bytes := Keys.idxPrefix c f ++ (goKeyTail v ++ id)
 /-- `getKey`: the key of a range bound -/
-def boundKey (c f : Bytes) (v : Value) : Bytes := Keys.idxPrefix c f ++ goKeyTail v
+def rangeBoundKey (c f : Bytes) (v : Value) : Bytes := Keys.idxPrefix c f ++ goKeyTail v
 
 /-- `extractDocId`: the last 36 bytes of an entry key, and what precedes them -/
 def extractId (k : Bytes) : Bytes := k.drop (k.length - 36)
@@ -48,8 +48,8 @@ def iterateRange (c f : Bytes) (r : Range) (rev : Bool) (onId : β → Bytes →
     (acc : β) : StoreM β := do
   if r.isEmpty then return acc
   let pfx := Keys.idxPrefix c f
-  let startKey : Option Bytes := if r.isNilR || !r.start.isNull then some (boundKey c f r.start) else none
-  let endKey : Option Bytes := if r.isNilR || !r.stop.isNull then some (boundKey c f r.stop) else none
+  let startKey : Option Bytes := if r.isNilR || !r.start.isNull then some (rangeBoundKey c f r.start) else none
+  let endKey : Option Bytes := if r.isNilR || !r.stop.isNull then some (rangeBoundKey c f r.stop) else none
   let kv ← snapshot
   if !rev then
     let items := seekFwd kv (startKey.getD pfx)
